@@ -224,4 +224,43 @@ theorem default_scale_pos (m : Method) (n order : ℕ) : (1.06 : Rat) ≤ defaul
     try linarith
   all_goals (simp only []; norm_num; try nlinarith [hn1, ho3, ho2, ho0])
 
+/-! ### per-variable base steps -/
+section vec
+variable {K : Type} [Field K] [LinearOrder K] [IsStrictOrderedRing K]
+
+/-- **A per-variable base step with one vanishing entry leaves no step**: every generated step vector has a zero component and is
+dropped by the generators' filter `(np.abs(step) > 0).all()`, so the sequence is empty (and `Derivative._get_steps` raises, by
+`no_steps_raises`) -/
+theorem emitStepsVec_zero_component (bases : List K) (ρ : K) (exps : List ℤ) (h : (0 : K) ∈ bases) :
+    emitStepsVec bases ρ exps = [] := by
+  unfold emitStepsVec
+  rw [List.filter_eq_nil_iff]
+  intro v hv
+  simp only [List.mem_map] at hv
+  obtain ⟨e, _, rfl⟩ := hv
+  simp only [List.all_eq_true, not_forall]
+  refine ⟨0 * zpowK ρ e, List.mem_map.mpr ⟨0, h, rfl⟩, ?_⟩
+  simp
+
+/-- ... and nothing is dropped when every base step and the ratio are non-zero -/
+theorem emitStepsVec_eq (bases : List K) (ρ : K) (exps : List ℤ) (hb : ∀ b ∈ bases, b ≠ 0) (hρ : ρ ≠ 0) :
+    emitStepsVec bases ρ exps = exps.map (fun e => bases.map (fun b => b * ρ ^ e)) := by
+  unfold emitStepsVec
+  rw [List.filter_eq_self.mpr]
+  · simp [zpowK_eq]
+  · intro v hv
+    simp only [List.mem_map] at hv
+    obtain ⟨e, _, rfl⟩ := hv
+    simp only [List.all_eq_true, List.mem_map]
+    rintro s ⟨b, hbm, rfl⟩
+    simp only [num_zero, num_abs, decide_eq_true_eq, abs_pos, zpowK_eq]
+    exact mul_ne_zero (hb b hbm) (zpow_ne_zero _ hρ)
+
+/-- non-vacuity of the hypothesis: the base steps (1/1000, 0) have a vanishing entry, (1/1000, 1/4) have none -/
+example : (0 : ℚ) ∈ [1 / 1000, 0] ∧ ∀ b ∈ ([1 / 1000, 1 / 4] : List ℚ), b ≠ 0 := by
+  constructor
+  · simp
+  · intro b hb; simp at hb; rcases hb with rfl | rfl <;> norm_num
+end vec
+
 end Ndt
